@@ -36,7 +36,7 @@ impl Axecutor {
             Operand::Register(r) => self.reg_read_8(r)?,
             Operand::Memory(m) => self.mem_read_8(self.mem_addr(m))?,
             _ => fatal_error!("Invalid operand {:?} for Idiv_rm8", op),
-        } as i16;
+        } as u8 as i8 as i16;
 
         if src_val == 0 {
             return Err(AxError::from(format!(
@@ -64,7 +64,7 @@ impl Axecutor {
             Operand::Register(r) => self.reg_read_16(r)?,
             Operand::Memory(m) => self.mem_read_16(self.mem_addr(m))?,
             _ => fatal_error!("Invalid operand {:?} for Idiv_rm16", op),
-        } as i32;
+        } as u16 as i16 as i32;
 
         if src_val == 0 {
             return Err(AxError::from(format!(
@@ -95,7 +95,7 @@ impl Axecutor {
             Operand::Register(r) => self.reg_read_32(r)?,
             Operand::Memory(m) => self.mem_read_32(self.mem_addr(m))?,
             _ => fatal_error!("Invalid operand {:?} for Idiv_rm32", op),
-        } as i64;
+        } as u32 as i32 as i64;
 
         if src_val == 0 {
             return Err(AxError::from(format!(
